@@ -102,6 +102,16 @@ def oracle(run):
                                 v.append(("order", "%s executed stage %d before its upstream stage %d: %s" % (what, x, j, log)))
                     if x in cyc and not single:
                         v.append(("cycle-executed", "%s executed stage %d which is on a cycle" % (what, x)))
+            # a successful commit committed every stage of its scope: each records a checksum for all its outputs
+            if op[0] == "commit" and st["rc"] == 0 and not meets_cycle:
+                for k_ in sorted(scope):
+                    doc = st["snap"]["stages"].get(names[k_])
+                    parsed = doc[1] if doc else None
+                    outs = (parsed or {}).get("outputs") or {}
+                    missing = [o for o, a in outs.items() if not (a or {}).get("checksum")]
+                    if parsed is None or missing:
+                        v.append(("scope-not-committed", "%s exited 0 but stage %s, which is in its scope (requested or upstream), records no checksum for %s"
+                                  % (what, names[k_].decode(), missing or "its outputs")))
             # stages outside the scope keep their stage files; outputs of stages outside the scope are untouched
             if op[0] != "run":
                 for k_, sp in enumerate(names):
